@@ -406,9 +406,16 @@ def _run_chunk(args):
     return _pad_call(pad, _run_chunk_inner, args)
 
 
+# (start, stop) of every chunk this process has executed, in order: what a run
+# may depend on if the code under test keeps process-global state
+_PROCESS_HISTORY = []
+
+
 def _run_chunk_inner(args):
     prop, verif_seed, tier, start, stop = args
     spec = get_spec(prop)
+    prior = list(_PROCESS_HISTORY)
+    _PROCESS_HISTORY.append((start, stop))
     faulthandler.dump_traceback_later(spec.chunk_timeout, exit=True)
     try:
         spec.setup(verif_seed, tier)
@@ -443,6 +450,9 @@ def _run_chunk_inner(args):
                 nontriv_digests.append(out.digest)
             if len(samples) < 1 and out.status == OK and out.nontrivial:
                 samples.append({"run": idx, "case": case, "outcome": out.to_json()})
+        for _sig in viol:
+            viol[_sig]["prior"] = prior
+            viol[_sig]["chunk_start"] = start
         return {
             "start": start,
             "stats": dict(stats),
@@ -510,7 +520,7 @@ def repo_head():
     return head, dirty
 
 
-def write_replay(spec, verif_seed, idx, case, outcome_json, minimised_from=None):
+def write_replay(spec, verif_seed, idx, case, outcome_json, minimised_from=None, history=None, tier="quick"):
     d = os.path.join(OUT, "replays")
     os.makedirs(d, exist_ok=True)
     sig_h = hashlib.sha256((outcome_json["sig"] or "").encode()).hexdigest()[:10]
@@ -527,6 +537,8 @@ def write_replay(spec, verif_seed, idx, case, outcome_json, minimised_from=None)
                 "detail": outcome_json["detail"],
                 "digest": outcome_json["digest"],
                 "case": case,
+                "history": history or [],
+                "tier": tier,
                 "minimised_from_ops": minimised_from,
                 "repo_head": head,
                 "repo_dirty": dirty,
@@ -545,7 +557,15 @@ def replay_file(path, quiet=False):
     with open(path) as f:
         rep = json.load(f)
     spec = get_spec(rep["property"])
-    spec.setup(rep.get("verif_seed", DEFAULT_SEED), "quick")
+    spec.setup(rep.get("verif_seed", DEFAULT_SEED), rep.get("tier", "quick"))
+    for prev in rep.get("history") or []:
+        # earlier runs of the same process that the violation needs (the code
+        # under test carried state from them); their own verdicts are not
+        # judged here
+        try:
+            spec.guarded_execute(prev)
+        except OutOfScope:
+            pass
     out = spec.guarded_execute(rep["case"])
     reproduced = out.status == VIOLATION and out.sig == rep["signature"]
     same_digest = out.digest == rep["digest"]
@@ -570,6 +590,114 @@ def replay_in_fresh_interpreter(path):
         timeout=600,
     )
     return p.returncode, p.stdout.decode(errors="replace")
+
+
+# --------------------------------------------------------------------------
+# Process-history fallback
+# --------------------------------------------------------------------------
+
+
+def history_test_main(argv):
+    """``bin/check history-test <job.json>``: in THIS fresh process, regenerate
+    and execute the listed run indices in order, then the target run; exit 1
+    iff the target run shows the recorded violation signature."""
+    with open(argv[0]) as f:
+        job = json.load(f)
+    spec = get_spec(job["property"])
+    spec.setup(job["verif_seed"], job["tier"])
+    faulthandler.dump_traceback_later(1800, exit=True)
+
+    def gen(i):
+        return spec.generate(rng_for(job["verif_seed"], spec.sim, spec.prop, i), i, job["tier"])
+
+    for i in job["indices"]:
+        try:
+            spec.guarded_execute(gen(i))
+        except OutOfScope:
+            pass
+    out = spec.guarded_execute(job["target_case"] if job.get("target_case") is not None else gen(job["target_idx"]))
+    hit = out.status == VIOLATION and out.sig == job["sig"]
+    print("history-test: %d earlier runs, target status=%s sig=%s -> %s" % (len(job["indices"]), out.status, out.sig, "REPRODUCED" if hit else "not reproduced"))
+    return 1 if hit else 0
+
+
+def history_fallback(spec, verif_seed, tier, sig, v, budget_s=900.0, max_tests=60):
+    """A violation that does not reproduce from its case alone may need the
+    earlier runs of its worker process (the code under test kept
+    process-global state: a memo cache, a mutated default, a class attribute).
+    Re-create that history in fresh interpreters, reduce it by delta debugging
+    and return (history cases, target case) — or None if even the full history
+    does not reproduce it (then it really is harness nondeterminism)."""
+    indices = []
+    for a, b in v.get("prior", []):
+        indices.extend(range(a, b))
+    indices.extend(range(v.get("chunk_start", v["idx"]), v["idx"]))
+    if not indices:
+        return None
+    t0 = time.time()
+    scratch = os.path.join(OUT, "replays")
+    os.makedirs(scratch, exist_ok=True)
+    job_path = os.path.join(scratch, ".history-job-%s-%d.json" % (spec.prop, os.getpid()))
+    tests = [0]
+
+    def test(idxs):
+        tests[0] += 1
+        with open(job_path, "w") as f:
+            json.dump({"property": spec.prop, "verif_seed": verif_seed, "tier": tier, "indices": idxs, "target_idx": v["idx"], "target_case": None, "sig": sig}, f)
+        env = dict(os.environ)
+        env["PYTHONHASHSEED"] = "12345"
+        env["VERIF_NO_REEXEC"] = "1"
+        try:
+            p = subprocess.run([PY, os.path.join(VERIF, "bin", "check"), "history-test", job_path], env=env, stdout=subprocess.PIPE, stderr=subprocess.STDOUT, timeout=1800)
+        except subprocess.TimeoutExpired:
+            return False
+        return p.returncode == 1
+
+    try:
+        # the failing chunk's own prefix first (cheapest), then everything
+        own = list(range(v.get("chunk_start", v["idx"]), v["idx"]))
+        if own and test(own):
+            cur = own
+        elif len(indices) > len(own) and test(indices):
+            cur = indices
+        else:
+            return None
+        # ddmin over the earlier runs
+        n = 2
+        while len(cur) >= 2 and tests[0] < max_tests and time.time() - t0 < budget_s:
+            size = max(1, len(cur) // n)
+            parts = [cur[i : i + size] for i in range(0, len(cur), size)]
+            reduced = False
+            for part in parts:  # a single part suffices?
+                if tests[0] >= max_tests:
+                    break
+                if len(part) < len(cur) and test(part):
+                    cur, n, reduced = part, 2, True
+                    break
+            if not reduced:
+                for k in range(len(parts)):  # a complement suffices?
+                    if tests[0] >= max_tests:
+                        break
+                    comp = [x for j, pp in enumerate(parts) if j != k for x in pp]
+                    if comp and len(comp) < len(cur) and test(comp):
+                        cur, n, reduced = comp, max(n - 1, 2), True
+                        break
+            if not reduced:
+                if n >= len(cur):
+                    break
+                n = min(len(cur), n * 2)
+        if len(cur) == 1 and tests[0] < max_tests and test([]):
+            cur = []
+    finally:
+        try:
+            os.remove(job_path)
+        except OSError:
+            pass
+
+    def gen(i):
+        return spec.generate(rng_for(verif_seed, spec.sim, spec.prop, i), i, tier)
+
+    return [gen(i) for i in cur], gen(v["idx"]), len(indices), tests[0]
 
 
 # --------------------------------------------------------------------------
@@ -692,15 +820,42 @@ def run_check(spec, tier, verif_seed, n_runs=None, workers=None, first_run=0):
             print("HARNESS-ERROR minimiser failed: %r" % (exc,))
             traceback.print_exc()
             return 3
-        if not (out.status == VIOLATION and out.sig == s):
-            print("HARNESS-NONDETERMINISM property=%s signature %s did not reproduce in-process" % (spec.prop, s))
-            return 3
-        path = write_replay(spec, verif_seed, v["idx"], mcase, out.to_json(), minimised_from=_case_size(case))
-        rc, txt = replay_in_fresh_interpreter(path)
-        if rc != 1 or "VIOLATION property=%s" % spec.prop not in txt:
-            print(txt)
-            print("HARNESS-NONDETERMINISM property=%s replay of %s did not reproduce in a fresh interpreter (rc=%s)" % (spec.prop, path, rc))
-            return 3
+        needs_history = not (out.status == VIOLATION and out.sig == s)
+        path = None
+        if not needs_history:
+            path = write_replay(spec, verif_seed, v["idx"], mcase, out.to_json(), minimised_from=_case_size(case), tier=tier)
+            rc, txt = replay_in_fresh_interpreter(path)
+            if rc != 1 or "VIOLATION property=%s" % spec.prop not in txt:
+                needs_history = True
+        if needs_history:
+            # not reproducible from the case alone: does it need the earlier
+            # runs of its worker process (state kept by the code under test)?
+            print("note: signature %s does not reproduce from its case alone; re-creating the worker's earlier runs in fresh interpreters" % s)
+            sys.stdout.flush()
+            hist = history_fallback(spec, verif_seed, tier, s, v)
+            if hist is None:
+                print("HARNESS-NONDETERMINISM property=%s signature %s reproduces neither from its case nor from its process history" % (spec.prop, s))
+                return 3
+            hcases, target, full_len, ntests = hist
+            ojson = dict(v["outcome"])
+            if hcases:
+                ojson["detail"] = (
+                    "(needs process history: the violation appears only after %d earlier run(s) in the same process — the code under test keeps state between calls; reduced from %d earlier runs in %d fresh-interpreter trials)\n%s"
+                    % (len(hcases), full_len, ntests, ojson.get("detail", ""))
+                )
+            else:
+                ojson["detail"] = (
+                    "(the case as generated reproduces on its own in a fresh process; its in-process minimisation did not — the code under test keeps state between calls, so the replay file holds the un-minimised case)\n%s"
+                    % ojson.get("detail", "")
+                )
+            path = write_replay(spec, verif_seed, v["idx"], target, ojson, minimised_from=full_len, history=hcases, tier=tier)
+            rc, txt = replay_in_fresh_interpreter(path)
+            if rc != 1 or "VIOLATION property=%s" % spec.prop not in txt:
+                print(txt)
+                print("HARNESS-NONDETERMINISM property=%s history replay %s did not reproduce in a fresh interpreter (rc=%s)" % (spec.prop, path, rc))
+                return 3
+            out = Outcome(VIOLATION, [], sig=s, detail=ojson["detail"])
+            nexec = ntests
         print("violation signature: %s" % s)
         print(out.detail)
         print("VIOLATION property=%s replay=%s" % (spec.prop, path))
